@@ -222,7 +222,11 @@ def _serialise(e, parent_ns=None) -> str:
 
 
 def _esc(t):
-    return "" if t is None else t.replace("&", "&amp;").replace("<", "&lt;").replace(">", "&gt;")
+    if t is None:
+        return ""
+    if t.startswith("CDATA:"):
+        return "<![CDATA[" + t[6:] + "]]>"
+    return t.replace("&", "&amp;").replace("<", "&lt;").replace(">", "&gt;")
 
 
 def native_via_from_xml(val, clean, collapse, literal, redeclare) -> str:
@@ -233,6 +237,10 @@ def native_via_from_xml(val, clean, collapse, literal, redeclare) -> str:
     doc = _serialise(e)
     # what the parser will hand over: empty text is None
     def norm(x):
+        if x.text and x.text.startswith("CDATA:"):
+            x.text = x.text[6:]
+        if x.tail and x.tail.startswith("CDATA:"):
+            x.tail = x.tail[6:]
         x.text = x.text if x.text else None
         x.tail = x.tail if x.tail else None
         for k in x:
